@@ -216,7 +216,10 @@ def clist(items):
 
 
 def dbl_bits(x: float) -> int:
-    return struct.unpack("<Q", struct.pack("<d", float(x)))[0]
+    x = float(x)
+    if x != x:
+        return 0x7FF8000000000000      # NaN payloads are not distinguished (float.hex() prints every NaN as "nan")
+    return struct.unpack("<Q", struct.pack("<d", x))[0]
 
 
 class Conv:
@@ -468,7 +471,7 @@ def model_expr(name: str, p, m, conv: Conv, info, before: str, base: int) -> str
     if name == "rminit":
         return f"(remove_inits_from_inputs {clist(gref(g) for g in m.graphs())} {before})"
     if name == "addinit":
-        return f"(add_inits_to_inputs {clist(gref(g) for g in m.graphs())} {before})"
+        return f"(add_inits_to_inputs {clist([gref(m.graph)])} {before})"       # d64e021: main graph only
     if name == "outfix":
         scopes = [clist([gref(m.graph)] + [gref(g) for g in m.graph.subgraphs()])]
         for f, fg in info["fgraphs"]:
